@@ -164,11 +164,13 @@ void h_addr_lemmas(void) {
 
 void h_parseInt(void) {
   char str[VSTR_CAP + 1]; result_t res; size_t len; _Bool withlen = nondet_bool();
+  verif_errno = nondet_int();      /* [C12] errno as left behind by any earlier conversion in the thread */
   parseInt(str, nondet_int(), nondet_uint(), nondet_uint(), &res, withlen ? &len : NULL, nondet_bool());
   CANARY("parseInt returns");
 }
 void h_parseSignedInt(void) {
   char str[VSTR_CAP + 1]; result_t res; size_t len; _Bool withlen = nondet_bool();
+  verif_errno = nondet_int();      /* [C12] errno as left behind by any earlier conversion in the thread */
   parseSignedInt(str, nondet_int(), nondet_int(), nondet_int(), &res, withlen ? &len : NULL, nondet_bool());
   CANARY("parseSignedInt returns");
 }
